@@ -130,3 +130,11 @@ PROPS["C17"] = {
                "thorough": "60 seeded 3x3 adapter patterns, all 3x3 patterns for reorder / scaled"},
     "out": "Eigen, uBlas and Epetra adapters (not instantiable at a symbolic scalar in the time available / not installed); the shared_ptr (internal CRS) constructors, which document sorted input; cpr_drs",
 }
+
+PROPS["C20"] = {
+    "S": [{"name": "c20", "src": "c20.cpp", "shards": 9, "flags": ["-I{REPO}"]}],
+    "explanation": "lib/amgcl.cpp is compiled unmodified inside the harness translation unit with `double` renamed to the symbolic scalar, so the amgclHandle functions build and run the real objects at the symbolic type. On concrete SPD systems with symbolic vectors and a symbolic tolerance: solve through the C API = solve through the C++ run-time interface with the same parameters (identical raw operation log: bitwise x, iteration count, residual); the Fortran-style 1-based entry points on the shifted arrays = the 0-based ones; both also with a replacement system matrix; preconditioner handles likewise; the arrays are embedded between guard elements (junk values, absurd indices) and no result may depend on them; the typed setters and read_json deliver the parameters unchanged to the parameter tree.",
+    "bounds": {"quick": "matrices: 3x2 grid and tridiagonal 5; 4 (coarsening, relaxation, solver) triples with maxiter 1-2; <=8 paths per case",
+               "thorough": "6 triples"},
+    "out": "rounding; the formation of the end iterator col + ptr[n] in the 1-based entry points (a pointer two past the end is formed, never dereferenced: not flagged); amgcl_*_report output; larger systems",
+}
